@@ -12,6 +12,11 @@ Ev == Rec[l]
 Devs == TraceDevs
 Chk(name, cond) == IF cond THEN TRUE ELSE PrintT(<<"FAILED", name, l>>) /\ FALSE
 
+(* Black-box recordings (a query submitted through the application): nothing between Setup and End is observed, so  *)
+(* relaxations are silent steps too, taken in increasing edge order (the order only matters on exact ties, which are  *)
+(* resolved either way), and TLC looks for a behaviour of Search that ends in the recorded response.                  *)
+BB == scn.bb
+
 (* edge-oriented queries: the origin / destination are edges; the search runs between the origin edge's end
    vertex and the destination edge's start vertex (scn.src / scn.dst), and the wrapper adds the two edges with
    zero cost and unchanged state.  When the two edges are adjacent there is no inner search: both are traversed. *)
@@ -53,6 +58,8 @@ TreeRows == {[v |-> v, p |-> tree[v].p, e |-> tree[v].e, st |-> tree[v].st, acc 
 RouteRows == LET w == Walk(tree, scn.dst) IN
                [i \in 1..Len(w) |-> [e |-> tree[w[i]].e, st |-> tree[w[i]].st, acc |-> tree[w[i]].acc, trv |-> tree[w[i]].trv]]
 
+(* a response without a route does not say how its state vectors are laid out: its tree rows carry no state *)
+Mask(r) == IF BB /\ ~Ev.tree_st THEN [r EXCEPT !.st = <<>>] ELSE r
 T_End == /\ Ev.ev = "End" /\ pc = "done"
          /\ Chk("outcome", Ev.outcome = outcome)
          /\ outcome = "terminated" =>
@@ -60,8 +67,8 @@ T_End == /\ Ev.ev = "End" /\ pc = "done"
                                   /\ Ev.msg_size = (scn.szl >= 0 /\ Cardinality(DOMAIN tree) > scn.szl)
                                   /\ Ev.msg_rt = (Sched /\ exh >= 0))
          /\ (outcome = "ok" /\ ~EdgeMode) =>
-               /\ Chk("iterations", Ev.iters = iters)
-               /\ Chk("tree", {Ev.tree[i] : i \in DOMAIN Ev.tree} = TreeRows /\ Len(Ev.tree) = Cardinality(TreeRows))
+               /\ Chk("iterations", BB \/ Ev.iters = iters)
+               /\ Chk("tree", Len(Ev.tree) = Cardinality(TreeRows) /\ {Ev.tree[i] : i \in DOMAIN Ev.tree} = {Mask(r) : r \in TreeRows})
                /\ Chk("one tree", Ev.ntrees = 1)
                /\ scn.dst # 0 => /\ Chk("one route", Ev.nroutes = 1)
                                  /\ Chk("route", Walk(tree, scn.dst) # <<0>> /\ Ev.route = RouteRows)
@@ -74,7 +81,7 @@ T_End == /\ Ev.ev = "End" /\ pc = "done"
                   \* C01: every returned tree entry records an edge that joins its parent to its own vertex
                   /\ Chk("C01 tree entries join parent to vertex", \A r \in evRows : ESrc(r.e) = r.p /\ EDst(r.e) = r.v)
                   /\ Chk("tree (away from the origin / destination edge ends)",
-                         {r \in evRows : r.v \notin wrapVs} = {r \in TreeRows : r.v \notin wrapVs})
+                         {r \in evRows : r.v \notin wrapVs} = {Mask(r) : r \in {x \in TreeRows : x.v \notin wrapVs}})
                   /\ d = 0 => Chk("no route", Ev.nroutes = 0)
                   /\ d # 0 =>
                        /\ Chk("one route", Ev.nroutes = 1)
@@ -89,7 +96,11 @@ T_End == /\ Ev.ev = "End" /\ pc = "done"
                                       /\ Walk(tree, scn.dst) # <<0>>
                                       /\ Ev.route = <<[e |-> o, st |-> scn.init, acc |-> 0, trv |-> 0]>> \o inner
                                                      \o <<[e |-> d, st |-> lastSt, acc |-> 0, trv |-> 0]>>)
-         /\ (outcome = "ok" /\ EdgeMode) => Chk("iterations (edge oriented)", Ev.iters = iters + (IF scn.odst = 0 THEN 1 ELSE IF scn.src = scn.dst THEN 1 ELSE 2))
+         /\ (outcome = "ok" /\ EdgeMode) => Chk("iterations (edge oriented)", BB \/ Ev.iters = iters + (IF scn.odst = 0 THEN 1 ELSE IF scn.src = scn.dst THEN 1 ELSE 2))
+         /\ (BB /\ outcome = "ok") =>
+               /\ Chk("one response echoing the query", Ev.nresp = 1 /\ Ev.echo)
+               /\ (Ev.nroutes = 1) => Chk("C03 the route summary is the state after the last edge",
+                                          Ev.route # <<>> /\ Ev.summary = Ev.route[Len(Ev.route)].st)
          /\ (Enforce("C01") /\ ~(EdgeMode /\ scn.src = scn.dst)) => Chk("C01 route is a contiguous walk", DoneC01)
          /\ (Enforce("C02") /\ ~(EdgeMode /\ scn.src = scn.dst)) => Chk("C02 least cost", DoneC02)
          /\ (Enforce("C05") /\ ~(EdgeMode /\ scn.src = scn.dst)) => Chk("C05 no-path iff unreachable / tree = reachable set", DoneC05)
@@ -111,14 +122,17 @@ NextIsRelaxAt(v) == l <= Len(Rec) /\ Ev.ev = "Relax" /\ Near(Ev.e) = v
 S_Test == /\ TermTest /\ UNCHANGED <<l, mustExh>>
           /\ (mustExh /\ RtOn) => exh' >= 0          \* a budget that is certainly used up is seen as used up
 S_Pop  == /\ Pop /\ UNCHANGED <<l, mustExh>>
-          /\ (pc' = "relax" /\ todo' # {}) => NextIsRelaxAt(cur')
+          /\ (pc' = "relax" /\ todo' # {}) => (BB \/ NextIsRelaxAt(cur'))
           /\ pc' = "done" => (l <= Len(Rec) /\ Ev.ev = "End")
 S_EndExpand == EndExpand /\ UNCHANGED <<l, mustExh>>
+S_Relax == /\ BB /\ pc = "relax" /\ todo # {}
+           /\ LET e == CHOOSE x \in todo : \A y \in todo : x <= y IN \E imp \in BOOLEAN : Relax(e, imp)
+           /\ UNCHANGED <<l, mustExh>>
 
 TInit == /\ l = 1 /\ scn = Idle /\ queue = <<>> /\ g = <<>> /\ tree = <<>> /\ cur = 0 /\ lastE = 0
          /\ todo = {} /\ iters = 0 /\ outcome = "run" /\ pc = "idle" /\ reop = FALSE /\ exh = -1 /\ mustExh = FALSE
 TNext == \/ (l <= Len(Rec) /\ l' = l + 1 /\ (T_Setup \/ T_Relax \/ T_End))
-         \/ S_Test \/ S_Pop \/ S_EndExpand
+         \/ S_Test \/ S_Pop \/ S_EndExpand \/ S_Relax
 TSpec == TInit /\ [][TNext]_tvars
 Track == TrackPos(l)
 NotStop == NotStopped(l)
